@@ -20,6 +20,21 @@ Monitors
                              N) with the exact rational standard deviation of f over the polygon;
   emis_range               : the mean of a function bounded on the polygon lies within its bounds (deterministic);
   emis_inside              : with a recording Python callable every sampled point lies inside the cross-section.
+  nearrect_stat / _inside  : quadrilaterals that are near-misses of the code's own rectangle test (4 vertices, equal diagonals
+                             in double precision, first stored edge parallel to an axis): isosceles trapezoids, equidiagonal
+                             kites and general equidiagonal quadrilaterals on exact lattices, rotated rectangles,
+                             parallelograms, true rectangles; EVERY rotation x orientation of the vertex list is sampled
+                             (native and recording Python function) and judged against f(centroid) with the same bound,
+                             all sample points must lie inside, and the estimates of different orderings must agree
+                             (nearrect_order);
+  alias_caller / _unchanged: for 12 container kinds (float64 C / F / row view / strided, float32, int64, int32 ndarrays, lists
+                             of lists / tuples / arrays / Point2D, tuples) construction must leave the caller's container
+                             untouched, and area / centroid / volume / vertices must stay bit-identical after the caller
+                             scales / reverses / overwrites its own container or refills a re-used scratch container for the
+                             next voxel; same for ToroidalVoxelGrid built from an (N, M, 2) array;
+  gridseq_total            : random sequences of set_active('all' | i), unparent_all_voxels(), parent_all_voxels(), parent
+                             changes of the grid / of single voxels, construction with active = int | 'all' and a parent:
+                             after every step total_volume == exact rational sum of the true voxel volumes.
 Sampling runs in a forked child so that a crash of the unchecked triangle lookup becomes a violation, not a dead worker.
 """
 import json
@@ -42,7 +57,12 @@ RULE = ("random polygons whose coordinates are arbitrary doubles (exact dyadic r
         "(slivers: width >= 1e-3 length instead), edges >= 1e-3 x extent; every polygon certified simple by an exact "
         "integer segment test (uncertified => skipped and counted). 'poly' cases drive ALL cyclic rotations x both "
         "orientations; 'grid' cases 1..400 voxels (rectangular, triangulated, mixed); 'emis' cases sample constants / "
-        "linear / bounded functions with N = 10..2e5 samples and a case-derived Raysect seed. A case is non-trivial when "
+        "linear / bounded functions with N = 10..2e5 samples and a case-derived Raysect seed; 'nearrect' cases: lattice "
+        "quadrilaterals with exactly equal diagonals and an axis-parallel edge (isosceles trapezoid, kite, general), "
+        "rectangles rotated by 1e-9..0.1 rad or 45 deg, parallelograms, rectangles, all 8 orderings sampled; 'alias' cases: 12 "
+        "vertex-container kinds x {scale, reverse, move-vertex, overwrite, re-used buffer} mutations by the caller, "
+        "(N,M,2) arrays for grids; 'gridseq' cases: 2..10 scenegraph/activation operations on 1..24-voxel grids with a "
+        "total_volume read after each. A case is non-trivial when "
         "a deciding comparison ran on a certified polygon of non-zero area (for linear emissivity: non-zero variance); "
         "distinct = distinct polygon/grid/function descriptors")
 LEVEL_TEXT = ("Exploration by runtime reference-model monitoring: the real AxisymmetricVoxel / ToroidalVoxelGrid objects are "
@@ -64,7 +84,9 @@ QUICK = dict(cases=400, workers=2, timecap=45)      # ~12 s of worker time on an
 THOROUGH = dict(cases=60000, workers=16, timecap=600)
 # minima are reached by ~100 cases: a quick run cut short by the time cap on a loaded machine is still conclusive
 REQUIRED = {"area": 600, "centroid": 1200, "volume": 600, "volume_self": 600, "order": 150, "grid_total": 8,
-            "grid_exact": 8, "emis_const": 15, "emis_stat": 15, "emis_range": 15, "emis_inside": 20000}
+            "grid_exact": 8, "emis_const": 15, "emis_stat": 15, "emis_range": 15, "emis_inside": 20000,
+            "nearrect_stat": 100, "nearrect_inside": 20000, "nearrect_order": 8, "alias_caller": 40, "alias_unchanged": 40,
+            "gridseq_total": 60}
 
 EPS = 2.0 ** -52
 PI_CODE = 3.141592653589793
@@ -322,13 +344,202 @@ def _mesh_ok(P):
 
 def gen_case(rng, tier):
     u = rng.random()
-    if u < 0.55:
+    if u < 0.45:
         cls, P = gen_polygon(rng)
         prim = "mesh" if (rng.random() < 0.12 and _mesh_ok(P)) else "csg"
         return dict(kind="poly", cls=cls, poly=P, prim=prim)
-    if u < 0.65:
+    if u < 0.53:
         return _gen_grid(rng, tier)
-    return _gen_emis(rng, tier)
+    if u < 0.79:
+        return _gen_emis(rng, tier)
+    if u < 0.86:
+        return _gen_nearrect(rng, tier)
+    if u < 0.94:
+        return _gen_alias(rng, tier)
+    return _gen_gridseq(rng, tier)
+
+
+# -- quadrilaterals that are near-misses of AxisymmetricVoxel._has_rectangular_cross_section ------------------------
+# (4 vertices, equal-length diagonals in double precision, first stored edge parallel to an axis).  Lattice shapes are
+# placed with power-of-two scales on dyadic offsets so that all coordinate differences, and therefore the two diagonal
+# lengths the code compares with ==, are exact.
+
+NEARRECT_SHAPES = ["isosceles-trapezoid", "kite", "equidiagonal-quad", "rectangle", "parallelogram", "rect-45deg",
+                   "rect-small-angle", "trapezoid-float"]
+_EQNORM = []
+
+
+def _equal_norm_vectors():
+    if not _EQNORM:
+        d = {}
+        for a in range(-24, 25):
+            for b in range(1, 25):
+                d.setdefault(a * a + b * b, []).append((a, b))
+        _EQNORM.extend(v for _m, v in sorted(d.items()) if len(v) >= 3)
+    return _EQNORM
+
+
+def _lattice_quad(rng, shape):
+    if shape == "isosceles-trapezoid":
+        a, b = int(rng.integers(1, 25)), int(rng.integers(1, 25))
+        if a == b:
+            b = a + 1
+        h = int(rng.integers(1, 25))
+        return [(-a, 0), (a, 0), (b, h), (-b, h)]
+    if shape == "kite":                 # symmetric about the diagonal AC, |AC| = |BD|, edge AB on the axis
+        while True:
+            a, b, k = int(rng.integers(1, 7)), int(rng.integers(1, 7)), int(rng.integers(1, 3))
+            if math.gcd(a, b) == 1 and (a, b) != (1, 1) and 2 * b != a:
+                break
+        return [(0, 0), (k * (a * a + b * b), 0), (2 * k * b * a, 2 * k * b * b), (k * (a * a - b * b), 2 * k * a * b)]
+    if shape == "equidiagonal-quad":
+        vs = _equal_norm_vectors()
+        v = vs[int(rng.integers(len(vs)))]
+        i, j = rng.choice(len(v), 2, replace=False)
+        w = int(rng.integers(1, 31))
+        return [(0, 0), (w, 0), (v[i][0], v[i][1]), (w + v[j][0], v[j][1])]
+    if shape == "rectangle":
+        w, h = int(rng.integers(1, 33)), int(rng.integers(1, 33))
+        return [(0, 0), (w, 0), (w, h), (0, h)]
+    if shape == "parallelogram":
+        w, h = int(rng.integers(1, 33)), int(rng.integers(1, 33))
+        sh = int(rng.integers(1, 17)) * (1 if rng.random() < 0.5 else -1)
+        return [(0, 0), (w, 0), (w + sh, h), (sh, h)]
+    if shape == "rect-45deg":
+        a, b = int(rng.integers(1, 17)), int(rng.integers(1, 17))
+        return [(0, 0), (a, a), (a - b, a + b), (-b, b)]
+    raise ValueError(shape)
+
+
+def gen_nearrect_polygon(rng, shape=None):
+    if shape is None:
+        shape = NEARRECT_SHAPES[int(rng.choice(len(NEARRECT_SHAPES), p=[0.3, 0.12, 0.16, 0.08, 0.08, 0.08, 0.1, 0.08]))]
+    for _ in range(60):
+        if shape in ("rect-small-angle", "trapezoid-float"):
+            w, h = rng.uniform(0.2, 1), rng.uniform(0.2, 1)
+            if shape == "rect-small-angle":
+                U = np.array([[-w, -h], [w, -h], [w, h], [-w, h]])
+                ph = float(10 ** rng.uniform(-9, -1)) * (1 if rng.random() < 0.5 else -1)
+            else:
+                t = rng.uniform(0.1, 0.9)
+                U = np.array([[-w, -h], [w, -h], [w * t, h], [-w * t, h]])
+                ph = 0.0
+            U = np.stack([U[:, 0] * math.cos(ph) - U[:, 1] * math.sin(ph), U[:, 0] * math.sin(ph) + U[:, 1] * math.cos(ph)], axis=1)
+            if rng.random() < 0.5:
+                U = U[:, ::-1]
+            Rc = float(10 ** rng.uniform(-1, 1))
+            size = float(min(10 ** rng.uniform(-3, 0.3), 0.6 * Rc))
+            Zc = float(rng.uniform(-5, 5))
+            P = [[float(Rc + size * a), float(Zc + size * b)] for a, b in U]
+        else:
+            Q = np.array(_lattice_quad(rng, shape), dtype=np.int64)
+            if rng.random() < 0.5:
+                Q = Q[:, ::-1]                                   # first edge parallel to z instead of r
+            if rng.random() < 0.5:
+                Q[:, 0] = -Q[:, 0]
+            if rng.random() < 0.5:
+                Q[:, 1] = -Q[:, 1]
+            Q[:, 0] -= Q[:, 0].min()
+            ext = int(max(np.ptp(Q[:, 0]), np.ptp(Q[:, 1])))
+            k = int(rng.integers(-1, 10)) + int(math.ceil(math.log2(ext)))      # extent 2^-9 .. 2 m
+            sc = 2.0 ** -k
+            R0 = int(rng.integers(410, 40960)) / 4096.0                # 0.1 .. 10 m, multiples of 2^-12
+            Z0 = int(rng.integers(-20480, 20481)) / 4096.0
+            P = [[float(R0 + sc * int(a)), float(Z0 + sc * int(b))] for a, b in Q]
+        s0 = int(rng.integers(4))
+        P = P[s0:] + P[:s0]
+        if rng.random() < 0.5:
+            P = P[::-1]
+        if min(q[0] for q in P) > 0 and certify_simple(P)[0]:
+            return shape, P
+    return "isosceles-trapezoid", [[2.0, 1.0], [3.0, 1.0], [4.0, 0.0], [1.0, 0.0]]
+
+
+def _gen_nearrect(rng, tier):
+    shape, P = gen_nearrect_polygon(rng)
+    k = int(rng.integers(5))
+    if k == 0:
+        fn = dict(a=0.0, b=0.0, c=1.0)                  # f = z
+    elif k == 1:
+        fn = dict(a=0.0, b=1.0, c=0.0)                  # f = r
+    else:
+        fn = dict(a=float(rng.normal()), b=float(rng.normal()), c=float(rng.normal()))
+    return dict(kind="nearrect", cls=shape, poly=P, prim="csg", fn=fn, N=int(rng.choice([20000, 100000])),
+                Np=int(rng.choice([500, 3000])), rs_seed=int(rng.integers(1, 2 ** 61)))
+
+
+# -- aliasing: the voxel must own its vertices ------------------------------------------------------------------------
+
+ALIAS_KINDS = ["f64_c", "f64_f", "f64_rowview", "f64_strided", "f32", "int64", "int32", "list_lists", "list_tuples",
+               "tuple_tuples", "list_point2d", "list_arrays"]
+ALIAS_OPS = ["scale", "reverse", "move-vertex", "overwrite"]
+
+
+def _representable(rng, ckind):
+    """polygon whose coordinates are exactly representable in the container's dtype (certified again after rounding)"""
+    for _ in range(40):
+        cls, P = gen_polygon(rng)
+        if ckind == "f32":
+            P = [[float(np.float32(a)), float(np.float32(b))] for a, b in P]
+        elif ckind in ("int64", "int32"):
+            A = np.array(P)
+            ext = max(np.ptp(A[:, 0]), np.ptp(A[:, 1]))
+            A = np.round((A - A.min(axis=0)) / ext * float(rng.integers(20, 2000)))
+            A[:, 0] += float(rng.integers(1, 500))
+            A[:, 1] -= float(rng.integers(0, 500))
+            P = [[float(a), float(b)] for a, b in A]
+        if min(q[0] for q in P) > 0 and certify_simple(P)[0]:
+            return cls, P
+    return "triangle", [[1.0, 0.0], [3.0, 1.0], [2.0, 4.0]]
+
+
+def _gen_alias(rng, tier):
+    if rng.random() < 0.3:
+        g = _gen_grid(rng, tier)
+        while g["cls"] != "grid:rect" and g["cls"] != "grid:tri":
+            g = _gen_grid(rng, tier)
+        cells = g["cells"][:60]
+        ck = ["f64_c", "f64_f", "f32", "f64_rowview"][int(rng.choice(4, p=[0.55, 0.15, 0.15, 0.15]))]
+        if ck == "f32":
+            cells = [[[float(np.float32(a)), float(np.float32(b))] for a, b in cell] for cell in cells]
+        return dict(kind="alias", mode="grid", cls="alias-grid:" + ck, ckind=ck, cells=cells, prim="csg",
+                    op=ALIAS_OPS[int(rng.integers(len(ALIAS_OPS)))])
+    ck = ALIAS_KINDS[int(rng.choice(len(ALIAS_KINDS), p=[0.22, 0.07, 0.12, 0.07, 0.07, 0.06, 0.05, 0.08, 0.06, 0.05,
+                                                          0.08, 0.07]))]
+    cls, P = _representable(rng, ck)
+    return dict(kind="alias", mode="voxel", cls="alias:" + ck, ckind=ck, poly=P, prim="csg",
+                op=ALIAS_OPS[int(rng.integers(len(ALIAS_OPS)))], reuse=bool(rng.random() < 0.4))
+
+
+# -- grid state sequences ---------------------------------------------------------------------------------------------
+
+def _gen_gridseq(rng, tier):
+    if rng.random() < 0.5:
+        cells = [gen_polygon(rng)[1] for _ in range(int(rng.integers(1, 9)))]
+    else:
+        g = _gen_grid(rng, tier)
+        cells = g["cells"][:int(rng.integers(1, 25))]
+    n = len(cells)
+    ctor_active = "all" if rng.random() < 0.5 else int(rng.integers(n))
+    ops = []
+    for _ in range(int(rng.integers(2, 11))):
+        k = int(rng.integers(8))
+        if k == 0:
+            ops.append(["set_active", "all"])
+        elif k in (1, 2):
+            ops.append(["set_active", int(rng.integers(n))])
+        elif k == 3:
+            ops.append(["unparent_all_voxels"])
+        elif k == 4:
+            ops.append(["parent_all_voxels"])
+        elif k == 5:
+            ops.append(["grid_parent", [None, 0, 1][int(rng.integers(3))]])
+        elif k == 6:
+            ops.append(["voxel_parent", int(rng.integers(n)), ["none", "grid"][int(rng.integers(2))]])
+        else:
+            ops.append(["read"])
+    return dict(kind="gridseq", cls="gridseq", cells=cells, prim="csg", ctor_active=ctor_active,
+                ctor_parent=[None, 0][int(rng.integers(2))], ops=ops)
 
 
 def _gen_grid(rng, tier):
@@ -465,6 +676,33 @@ def fixed_cases(tier):
         dict(kind="emis", cls="hostile:area-rounding-deficit", poly=_OOB_POLY, prim="csg",
              fn=dict(type="bounded_native"), N=200000, rs_seed=843),
     ]
+    # near-misses of the rectangle test, aliasing of caller-owned containers, grid state sequences
+    trap = [[2.0, 1.0], [3.0, 1.0], [4.0, 0.0], [1.0, 0.0]]
+    out += [
+        dict(kind="nearrect", cls="isosceles-trapezoid", poly=trap, prim="csg", fn=dict(a=0.0, b=0.0, c=1.0), N=100000,
+             Np=3000, rs_seed=11),
+        dict(kind="nearrect", cls="isosceles-trapezoid", poly=[[q[1] + 1.0, q[0]] for q in trap], prim="csg",
+             fn=dict(a=0.3, b=1.0, c=-0.5), N=100000, Np=3000, rs_seed=12),
+        dict(kind="nearrect", cls="kite", poly=[[4.0, 0.0], [9.0, 0.0], [8.0, 8.0], [1.0, 4.0]], prim="csg",
+             fn=dict(a=0.0, b=1.0, c=1.0), N=100000, Np=3000, rs_seed=13),
+        dict(kind="nearrect", cls="equidiagonal-quad", poly=[[1.0, 0.0], [4.0, 0.0], [5.0, 3.0], [1.0, 4.0]], prim="csg",
+             fn=dict(a=0.0, b=1.0, c=1.0), N=100000, Np=3000, rs_seed=14),
+        dict(kind="nearrect", cls="rectangle", poly=[[2.0, -1.0], [2.0, 3.0], [4.0, 3.0], [4.0, -1.0]], prim="csg",
+             fn=dict(a=0.0, b=1.0, c=1.0), N=100000, Np=3000, rs_seed=15),
+    ]
+    for ck in ALIAS_KINDS:
+        out.append(dict(kind="alias", mode="voxel", cls="alias:" + ck, ckind=ck, prim="csg", op="scale", reuse=True,
+                        poly=[[2.0, 0.0], [2.0, 3.0], [3.0, 3.0], [3.0, 1.0], [5.0, 1.0], [5.0, 0.0]]))
+    for ck, op in (("f64_c", "scale"), ("f64_c", "overwrite"), ("f64_rowview", "move-vertex"), ("f32", "reverse")):
+        cc = cells[:12] if ck != "f32" else [[[float(np.float32(a)), float(np.float32(b))] for a, b in q] for q in cells[:12]]
+        out.append(dict(kind="alias", mode="grid", cls="alias-grid:" + ck, ckind=ck, cells=cc, prim="csg", op=op))
+    out += [
+        dict(kind="gridseq", cls="gridseq", cells=cells[:6], prim="csg", ctor_active="all", ctor_parent=None,
+             ops=[["set_active", 2], ["read"], ["set_active", "all"], ["unparent_all_voxels"], ["parent_all_voxels"],
+                  ["grid_parent", 0], ["voxel_parent", 1, "none"], ["grid_parent", None], ["set_active", 0]]),
+        dict(kind="gridseq", cls="gridseq", cells=tri[:5], prim="csg", ctor_active=3, ctor_parent=0,
+             ops=[["read"], ["unparent_all_voxels"], ["set_active", 4], ["grid_parent", 1], ["set_active", "all"]]),
+    ]
     return out
 
 
@@ -592,6 +830,12 @@ def run_case(case, ctx):
         return _run_grid(case, ctx)
     if kind == "emis":
         return _run_emis(case, ctx)
+    if kind == "nearrect":
+        return _run_nearrect(case, ctx)
+    if kind == "alias":
+        return _run_alias_grid(case, ctx) if case.get("mode") == "grid" else _run_alias(case, ctx)
+    if kind == "gridseq":
+        return _run_gridseq(case, ctx)
     raise ValueError("unknown case kind %r" % kind)
 
 
@@ -851,3 +1095,383 @@ def _run_emis(case, ctx):
     ctx.close(m, mu, "emissivity:linear-mean-biased:%s" % ("single-triangle" if n == 3 else "multi-triangle"),
               "sampled mean of a linear emissivity deviates from the area mean f(centroid) beyond the p=2.6e-12 bound",
               atol=tol, monitor="emis_stat", sigma=sigma, z=abs(m - mu) / (sigma / math.sqrt(Neff)), **det)
+
+
+# ------------------------------------------------------------------------------------------------
+# near-rectangle quadrilaterals: emissivity in every ordering of the vertex list
+# ------------------------------------------------------------------------------------------------
+
+def _run_nearrect(case, ctx):
+    P = [[float(a), float(b)] for a, b in case["poly"]]
+    shape = case.get("cls", "?")
+    ctx.cls("nearrect:" + shape)
+    if not _certified(P, ctx):
+        return
+    ex = exact_moments(P)
+    cx, cy = float(ex["cx"]), float(ex["cy"])
+    a, b, c = float(case["fn"]["a"]), float(case["fn"]["b"]), float(case["fn"]["c"])
+    N, Np = int(case["N"]), int(case["Np"])
+    V = np.asarray(P, dtype=float)
+    ext = float(max(np.ptp(V[:, 0]), np.ptp(V[:, 1])))
+    n = len(P)
+    orderings = []
+    for rev in (False, True):
+        base = P[::-1] if rev else P
+        for s0 in range(n):
+            orderings.append((s0, rev, base[s0:] + base[:s0]))
+    prim = case.get("prim", "csg")
+
+    def job():
+        from raysect.core.math.random import seed
+        from raysect.core.math.function.float import Arg3D
+        fnat = a + b * Arg3D('x') + c * Arg3D('z')
+        res = []
+        for k, (s0, rev, Q) in enumerate(orderings):
+            pts = []
+
+            def fpy(x, y, z):
+                pts.append((x, z))
+                return a + b * x + c * z
+            try:
+                v = _mk_voxel(Q, prim)
+                seed(int(case["rs_seed"]) + 2 * k)
+                m = v.emissivity_from_function(fnat, N)
+                seed(int(case["rs_seed"]) + 2 * k + 1)
+                mp = v.emissivity_from_function(fpy, Np)
+            except Exception as e:
+                raise _wrap_target(e)
+            A = np.array(pts, dtype=float)
+            bad = _outside(P, A, 1e-9 * ext)
+            res.append(dict(mean=float(m), mean_py=float(mp), npts=len(pts), n_outside=int(len(bad)),
+                            first_outside=[[float(A[i, 0]), float(A[i, 1])] for i in bad[:2]]))
+        return res
+
+    out = _in_child(job)
+    det = dict(shape=shape, N=N)
+    if "signal" in out:
+        ctx.viol("emissivity:near-rectangle:sampler-crash", "child died with signal %d inside emissivity_from_function"
+                 % out["signal"], **det)
+        return
+    if "exc" in out:
+        _report_child_exception(out, ctx, "emissivity_from_function")
+        return
+    fv = a + b * V[:, 0] + c * V[:, 1]
+    lo, hi = float(fv.min()), float(fv.max())
+    fmax = float(np.abs(fv).max() + abs(a))
+    mu = a + b * cx + c * cy
+    var = b * b * float(ex["vxx"]) + c * c * float(ex["vyy"]) + 2 * b * c * float(ex["vxy"])
+    sigma = math.sqrt(max(var, 0.0))
+    if sigma == 0.0:
+        ctx.skip("linear function with zero variance over the polygon")
+        return
+    ctx.nontrivial()
+    tol = _bernstein(sigma, hi - lo, N) + max(N, 64) * EPS * fmax
+    tolp = _bernstein(sigma, hi - lo, Np) + max(Np, 64) * EPS * fmax
+    means = []
+    for (s0, rev, _Q), r in zip(orderings, out["ok"]):
+        od = dict(start_vertex=s0, reversed=rev, **det)
+        means.append(r["mean"])
+        ctx.mon("nearrect_inside", r["npts"])
+        if r["npts"] != Np:
+            ctx.viol("emissivity:near-rectangle:number-of-samples", "emission function was not called grid_samples times",
+                     got=r["npts"], **od)
+        if r["n_outside"]:
+            ctx.viol("emissivity:near-rectangle:sample-outside-cross-section",
+                     "emissivity_from_function evaluated the function at points outside a quadrilateral cross-section "
+                     "(4 vertices, not an axis-aligned rectangle)" if shape != "rectangle" else
+                     "emissivity_from_function evaluated the function at points outside a rectangular cross-section",
+                     n_outside=r["n_outside"], of=r["npts"], first_outside=r["first_outside"], **od)
+        ctx.close(r["mean"], mu, "emissivity:near-rectangle:linear-mean-biased",
+                  "sampled mean of a linear emissivity over a quadrilateral deviates from the area mean f(centroid) beyond "
+                  "the p=2.6e-12 bound", atol=tol, monitor="nearrect_stat", sigma=sigma, **od)
+        ctx.close(r["mean_py"], mu, "emissivity:near-rectangle:linear-mean-biased",
+                  "sampled mean of a linear emissivity (Python callable) over a quadrilateral deviates from the area mean "
+                  "f(centroid) beyond the p=2.6e-12 bound", atol=tolp, monitor="nearrect_stat", sigma=sigma, **od)
+    ctx.close(max(means) - min(means), 0.0, "emissivity:near-rectangle:estimate-depends-on-vertex-order",
+              "the sampled mean emissivity of the same quadrilateral differs between orderings of its vertex list by more "
+              "than twice the statistical bound (its expectation f(centroid) does not depend on the ordering)",
+              atol=2 * tol, monitor="nearrect_order", **det)
+
+
+# ------------------------------------------------------------------------------------------------
+# aliasing of caller-owned vertex containers
+# ------------------------------------------------------------------------------------------------
+
+def _make_container(P, ckind):
+    """returns (container, keepalive) holding exactly the values of P"""
+    from raysect.core import Point2D
+    A = np.array(P, dtype=float)
+    n = len(P)
+    if ckind == "f64_c":
+        return np.ascontiguousarray(A.copy()), None
+    if ckind == "f64_f":
+        return np.asfortranarray(A.copy()), None
+    if ckind == "f64_rowview":
+        big = np.zeros((3, n, 2))
+        big[1] = A
+        return big[1], big
+    if ckind == "f64_strided":
+        big = np.zeros((n, 4))
+        big[:, ::2] = A
+        return big[:, ::2], big
+    if ckind == "f32":
+        return A.astype(np.float32), None
+    if ckind == "int64":
+        return A.astype(np.int64), None
+    if ckind == "int32":
+        return A.astype(np.int32), None
+    if ckind == "list_lists":
+        return [[x, y] for x, y in P], None
+    if ckind == "list_tuples":
+        return [(x, y) for x, y in P], None
+    if ckind == "tuple_tuples":
+        return tuple((x, y) for x, y in P), None
+    if ckind == "list_point2d":
+        return [Point2D(x, y) for x, y in P], None
+    if ckind == "list_arrays":
+        return [np.array([x, y], dtype=float) for x, y in P], None
+    raise ValueError(ckind)
+
+
+def _container_values(c):
+    from raysect.core import Point2D
+    if isinstance(c, np.ndarray):
+        return [[float(a) for a in row] for row in c.reshape(-1, 2)]
+    return [[float(v.x), float(v.y)] if isinstance(v, Point2D) else [float(v[0]), float(v[1])] for v in c]
+
+
+def _mutate_container(c, ckind, op):
+    """in-place change of the caller's container (True if something was changed)"""
+    from raysect.core import Point2D
+    if isinstance(c, np.ndarray):
+        if op == "scale":
+            c *= 3
+        elif op == "reverse":
+            c[...] = c[::-1].copy()
+        elif op == "move-vertex":
+            c[0] = c[0] + (c.max(axis=0) - c.min(axis=0)) // 2 + 1 if c.dtype.kind == "i" else \
+                c[0] + 0.5 * (c.max(axis=0) - c.min(axis=0)) + 0.25
+        else:
+            c[...] = np.roll(c, 1, axis=0) * 2 + 1
+        return True
+    if ckind == "tuple_tuples":
+        return False
+    for i in range(len(c)):
+        v = c[i]
+        if isinstance(v, Point2D):
+            v.x = v.x * 3 + 1
+            v.y = v.y * 2 - 1
+        elif isinstance(v, tuple):
+            c[i] = (v[0] * 3 + 1, v[1] * 2 - 1)
+        else:
+            v[0] = v[0] * 3 + 1
+            v[1] = v[1] * 2 - 1
+        if op == "move-vertex":
+            break
+    if op == "reverse":
+        c.reverse()
+    return True
+
+
+def _voxel_state(v, safe=False):
+    """safe=True: used after the caller's container was modified; a voxel that aliases it may have become degenerate and
+    raise (ZeroDivisionError in the centroid) -- that is reported as a changed state, not as an unexpected exception"""
+    if safe:
+        try:
+            return _voxel_state(v)
+        except Exception as e:  # noqa
+            return ["raised " + type(e).__name__]
+    c = v.cross_section_centroid
+    return [float(v.cross_sectional_area), float(c.x), float(c.y), float(v.volume)] + \
+           [float(t) for p in v.vertices for t in (p.x, p.y)]
+
+
+def _run_alias(case, ctx):
+    from cherab.tools.inversions import AxisymmetricVoxel
+    P0 = [[float(a), float(b)] for a, b in case["poly"]]
+    ck, op = case["ckind"], case["op"]
+    ctx.cls(case.get("cls", "alias:" + ck))
+    ctx.cls("alias-op:" + op)
+    if not _certified(P0, ctx):
+        return
+    ex = exact_moments(P0)
+    tb = rounding_bounds(P0, ex)
+    ctx.nontrivial()
+    for rev in (False, True):
+        P = P0[::-1] if rev else P0
+        orient = "ccw" if (ex["ccw"] != rev) else "cw"
+        cont, keep = _make_container(P, ck)
+        if _container_values(cont) != P:
+            raise RuntimeError("C17 harness: container %s does not hold the polygon values" % ck)
+        keep0 = None if keep is None else keep.copy()
+        v = AxisymmetricVoxel(cont, primitive_type=case.get("prim", "csg"))
+        det = dict(container=ck, orientation_given=orient, n_vertices=len(P))
+        same = _container_values(cont) == P and (keep is None or bool(np.array_equal(keep, keep0)))
+        ctx.check(same, "aliasing:constructor-modifies-caller-container:%s" % ck,
+                  "AxisymmetricVoxel.__init__ changed the vertex container passed by the caller", monitor="alias_caller",
+                  **det)
+        st0 = _voxel_state(v)
+        ctx.close(st0[0], float(ex["A"]), "area:container-%s" % ck,
+                  "cross_sectional_area differs from the polygon's true area (vertices given as %s)" % ck, atol=tb["A"],
+                  monitor="area", **det)
+        ctx.close(st0[1:3], [float(ex["cx"]), float(ex["cy"])], "centroid:container-%s" % ck,
+                  "cross_section_centroid differs from the true centroid (vertices given as %s)" % ck,
+                  atol=np.array([tb["cx"], tb["cy"]]), monitor="centroid", **det)
+        if _mutate_container(cont, ck, op):
+            st1 = _voxel_state(v, safe=True)
+            ctx.check(st1 == st0, "aliasing:voxel-changes-after-caller-mutated-array:%s" % ck,
+                      "area / centroid / volume / vertices of an existing voxel changed when the caller modified its own "
+                      "vertex container afterwards (voxel shares memory with the input)", monitor="alias_unchanged",
+                      op=op, before=st0[:4], after=st1[:4], **det)
+    if case.get("reuse") and ck not in ("tuple_tuples",):
+        # cells built one after another from one re-used scratch container
+        # (refilled with the same polygon scaled by 1, 2 and 4: exact in every dtype, still simple)
+        A = np.array(P0, dtype=float)
+        cont, keep = _make_container(P0, ck)
+        voxels, states = [], []
+        for f in (1, 2, 4):
+            if isinstance(cont, np.ndarray):
+                cont[...] = (A * f).astype(cont.dtype)
+            else:
+                for i, (x, y) in enumerate(P0):
+                    if ck == "list_point2d":
+                        cont[i].x, cont[i].y = x * f, y * f
+                    elif ck == "list_tuples":
+                        cont[i] = (x * f, y * f)
+                    else:
+                        cont[i][0], cont[i][1] = x * f, y * f
+            vx = AxisymmetricVoxel(cont, primitive_type=case.get("prim", "csg"))
+            voxels.append(vx)
+            states.append(_voxel_state(vx))
+        after = [_voxel_state(vx, safe=True) for vx in voxels]
+        ctx.check(after == states, "aliasing:voxel-changes-after-caller-mutated-array:%s" % ck,
+                  "voxels built one after another from a re-used scratch container changed when the container was refilled "
+                  "for the next voxel", monitor="alias_unchanged", op="reuse-buffer", container=ck,
+                  before=[s[:4] for s in states], after=[s[:4] for s in after])
+
+
+def _run_alias_grid(case, ctx):
+    from cherab.tools.inversions import ToroidalVoxelGrid
+    cells = [[[float(a), float(b)] for a, b in cell] for cell in case["cells"]]
+    ck, op = case["ckind"], case["op"]
+    ctx.cls(case.get("cls", "alias-grid:" + ck))
+    ctx.cls("alias-op:" + op)
+    for cell in cells:
+        if not _certified(cell, ctx):
+            return
+    A = np.array(cells, dtype=float)
+    if A.ndim != 3:
+        raise RuntimeError("C17 harness: alias grid needs cells with equal vertex counts")
+    keep = None
+    if ck == "f64_c":
+        arr = np.ascontiguousarray(A.copy())
+    elif ck == "f64_f":
+        arr = np.asfortranarray(A.copy())
+    elif ck == "f32":
+        arr = A.astype(np.float32)
+    else:
+        keep = np.zeros((2,) + A.shape)
+        keep[1] = A
+        arr = keep[1]
+    if not np.array_equal(np.asarray(arr, dtype=float), A):
+        raise RuntimeError("C17 harness: array container does not hold the cell values")
+    grid = ToroidalVoxelGrid(arr, primitive_type=case.get("prim", "csg"))
+    ctx.nontrivial()
+    det = dict(container=ck, n_voxels=len(cells))
+    ctx.check(bool(np.array_equal(np.asarray(arr, dtype=float), A)), "aliasing:grid-constructor-modifies-caller-array:%s" % ck,
+              "ToroidalVoxelGrid.__init__ changed the (N, M, 2) coordinate array passed by the caller",
+              monitor="alias_caller", **det)
+    want, tols = [], []
+    for cell in cells:
+        ex = exact_moments(cell)
+        tb = rounding_bounds(cell, ex)
+        want.append(tb["volume"])
+        tols.append(tb["vol"])
+    tv0 = float(grid.total_volume)
+    st0 = [_voxel_state(v) for v in grid]
+    ctx.close(tv0, math.fsum(want), "grid:total-volume-not-sum-of-true-volumes",
+              "ToroidalVoxelGrid.total_volume differs from the sum of the true voxel volumes",
+              atol=float(np.sum(tols)) + len(cells) * EPS * math.fsum(want), monitor="grid_exact", **det)
+    if op == "scale":
+        arr *= 100
+    elif op == "reverse":
+        arr[...] = arr[:, ::-1].copy()
+    elif op == "move-vertex":
+        arr[:, 0, :] += 0.5 * (arr.max(axis=(0, 1)) - arr.min(axis=(0, 1))) + 0.25
+    else:
+        arr[...] = np.roll(arr, 1, axis=0) * 2 + 1
+    try:
+        tv1 = float(grid.total_volume)
+    except Exception as e:  # noqa  (a voxel aliasing the modified array became degenerate)
+        tv1 = "raised " + type(e).__name__
+    st1 = [_voxel_state(v, safe=True) for v in grid]
+    ctx.check(tv1 == tv0 and st1 == st0, "aliasing:grid-changes-after-caller-mutated-array:%s" % ck,
+              "total_volume / voxel area, centroid, volume, vertices of an existing grid changed when the caller modified "
+              "its own coordinate array afterwards", monitor="alias_unchanged", op=op, total_before=tv0, total_after=tv1,
+              **det)
+
+
+# ------------------------------------------------------------------------------------------------
+# grid state sequences: total_volume is the sum of the grid's voxel volumes in every scenegraph state
+# ------------------------------------------------------------------------------------------------
+
+def _run_gridseq(case, ctx):
+    from cherab.tools.inversions import ToroidalVoxelGrid
+    from raysect.optical import World
+    cells = [[[float(a), float(b)] for a, b in cell] for cell in case["cells"]]
+    ctx.cls("gridseq")
+    for cell in cells:
+        if not _certified(cell, ctx):
+            return
+    n = len(cells)
+    tot = Fraction(0)
+    tolsum = 0.0
+    for cell in cells:
+        ex = exact_moments(cell)
+        tb = rounding_bounds(cell, ex)
+        tot += ex["cx"] * ex["A"]
+        tolsum += tb["vol"]
+    want = 2 * math.pi * float(tot)
+    atol = tolsum + (n + 4) * EPS * want
+    worlds = [World(), World()]
+    ca = case["ctor_active"]
+    cp = case.get("ctor_parent")
+    grid = ToroidalVoxelGrid(cells, parent=None if cp is None else worlds[cp], active=ca,
+                             primitive_type=case.get("prim", "csg"))
+    ctx.nontrivial()
+
+    def observe(opname, **det):
+        ctx.cls("gridseq-op:" + opname)
+        tv = grid.total_volume
+        s = 0
+        for v in grid:
+            s += v.volume
+        ok = ctx.check(len(grid) == n and grid.count == n, "grid:voxel-count-after:" + opname,
+                       "the grid no longer holds one voxel per input polygon", monitor="gridseq_count", **det)
+        ctx.close(tv, want, "grid:total-volume-after:" + opname,
+                  "ToroidalVoxelGrid.total_volume is not the sum of the (true) volumes of the grid's voxels after %s" % opname,
+                  atol=atol, monitor="gridseq_total", n_voxels=n, **det)
+        if ok:
+            ctx.close(tv, s, "grid:total-volume-after:" + opname,
+                      "ToroidalVoxelGrid.total_volume differs from the sum of its voxels' volume attributes after %s" % opname,
+                      rtol=max(n, 2) * EPS, monitor="gridseq_total", n_voxels=n, **det)
+
+    observe("construction-active-all" if ca == "all" else "construction-active-int")
+    for step, op in enumerate(case["ops"]):
+        name = op[0]
+        if name == "set_active":
+            grid.set_active(op[1] if op[1] == "all" else int(op[1]))
+            name = "set_active-all" if op[1] == "all" else "set_active-int"
+        elif name == "unparent_all_voxels":
+            grid.unparent_all_voxels()
+        elif name == "parent_all_voxels":
+            grid.parent_all_voxels()
+        elif name == "grid_parent":
+            grid.parent = None if op[1] is None else worlds[int(op[1])]
+            name = "grid-parent-change"
+        elif name == "voxel_parent":
+            grid[int(op[1])].parent = None if op[2] == "none" else grid
+            name = "voxel-parent-change"
+        elif name != "read":
+            raise ValueError("unknown grid op %r" % (op,))
+        observe(name, step=step)
